@@ -34,6 +34,13 @@ def package(features: list[str], k: int) -> Path:
                  "class PubX:", "    pass", "", "class PubY:", "    pass", "",
                  "class SubC(PubX, PubY, _Base):", "    pass", "", "class SubD(_Base, PubX, PubY):", "    def own(self) -> int:", "        ...", ""]
     files = {"__init__.py": "", "mainmod.py": "\n".join(main)}
+    if "inherited-twice" in f:
+        # a generic chain: the middle class has a generic nested class of its own
+        files["genmod.py"] = ("from typing import Generic, TypeVar\n\nT = TypeVar(\"T\")\nU = TypeVar(\"U\")\n\n\n"
+                              "class _Root(Generic[T]):\n    def gshared(self, x: T) -> T:\n        ...\n\n\n"
+                              "class _Mid(_Root[T], Generic[T]):\n    class Inner(Generic[U]):\n        def other(self, u: U) -> U:\n            ...\n\n\n"
+                              "class GenA(_Root[T], Generic[T]):\n    pass\n\n\nclass GenB(_Mid[T], Generic[T]):\n    pass\n\n\n"
+                              "class GenC(_Mid[T], Generic[T]):\n    class Own(Generic[U]):\n        def mine(self, u: U) -> U:\n            ...\n")
     if "alias-reexport" in f:
         files["__init__.py"] = "from .inner._impl import Hidden as Shown\nfrom .inner._impl import helper as shown_helper\n"
         files["inner/__init__.py"] = ""
@@ -45,6 +52,12 @@ def package(features: list[str], k: int) -> Path:
         files["core/geometry/impl.py"] = "class Circle:\n    def r(self) -> int:\n        ...\n\n\ndef area(c: Circle) -> int:\n    ...\n"
         files["facade/__init__.py"] = "from histpkXX.core.geometry.impl import Circle, area\n"
         files["facade/fill.py"] = "def fill() -> int:\n    ...\n"
+    if "package-newtype" in f:
+        files["accounts.py"] = ("from typing import NewType\n\nAccountId = NewType(\"AccountId\", int)\n\n\ndef new_account(name: str) -> AccountId:\n    ...\n\n\n"
+                                "def close_account(account: AccountId) -> bool:\n    ...\n")
+        files["ledger.py"] = "from histpkXX.accounts import AccountId\n\n\ndef balance(account: AccountId) -> float:\n    ...\n"
+        files["zledger.py"] = "from histpkXX.accounts import AccountId\n\n\ndef zbalance(account: AccountId) -> float:\n    ...\n"
+        files["aaledger.py"] = "from histpkXX.accounts import AccountId\n\n\ndef abalance(account: AccountId) -> float:\n    ...\n"
     root = f"histpk{k:02d}"
     files = {p: t.replace("histpkXX", root) for p, t in files.items()}
     return write_pkg(files, root)
